@@ -7,10 +7,10 @@ CONSTANTS
   Variants = {"asis", "fixed"}
   Cuts = FALSE
   Kinds = {"T2", "T1S", "T512"}
-  Sizes = {3, 4}
+  Sizes = {3}
   Pads = {0, 1, 2, 3}
   Props = {0}
-  CtlFroms = {2, 3, 4, 6, 8, 11, 16, 22, 30}
+  CtlFroms = {2, 3, 4, 6, 8, 11, 16, 22}
   CtlSizes = {1, 3}
   CtlTypes = {1, 2}
   TwoCtl = TRUE
